@@ -491,7 +491,9 @@ func (runInfo *runInfoStruct) runForStmt(stmt *ast.ForStmt) {
 	case reflect.Map:
 		runInfo.runForMapStmt(stmt, value)
 	case reflect.Chan:
-		runInfo.runForChanStmt(stmt, value)
+		// the operand is evaluated once: a channel read from a typed slot is the
+		// channel that is in the slot now, not the slot
+		runInfo.runForChanStmt(stmt, detachValue(value))
 	default:
 		runInfo.err = newStringError(stmt, "for cannot loop over type "+value.Kind().String())
 		runInfo.rv = nilValue
